@@ -169,8 +169,10 @@ PROPS = {
         "trusted_base": ["modelled: BlockFiltersProcess::execute, check_filters_data, could_request_more_block_filters, cached-hash reset"],
     },
     "C02": {
-        "ops": [("c02", "RunC02", {"quick": 60, "thorough": 1500})],
-        "rule": "whole-client worlds with transaction bodies: fetch_header / fetch_transaction through the RPC implementations for hashes on the proven chain, on another "
+        "ops": [("c02", "RunC02", {"quick": 60, "thorough": 1500}), ("c06", "RunC06", {"quick": 40, "thorough": 800})],
+        "rule": "op c06 (filter worlds): matched blocks are proven through SendBlocksProof answers that report some hashes missing, and bodies of never-proven "
+                "hashes are sent: nothing unproven may be marked proved or indexed (classes C02-unproven-...); "
+                "whole-client worlds with transaction bodies: fetch_header / fetch_transaction through the RPC implementations for hashes on the proven chain, on another "
                 "branch and unknown; fetch ticks; SendBlocksProof (v0 / v1) and SendTransactionsProof answers honest and mutated (foreign / dropped / extra header, found as "
                 "missing and vice versa, bad MMR proof, bad extension, newer last state, forged transaction under a valid Merkle path, wrong witnesses root, other block's "
                 "header) and unsolicited; peer disconnects and fresh proven peers; every event's status code, fetch tables and stored headers / transactions are compared "
